@@ -106,6 +106,8 @@ type Exec struct {
 	byCall      bool
 	stores      map[string]storeInfo
 	freshRefs   map[string]bool
+	boundOf     map[string]int
+	alts        map[string][]Term
 	nerr        int
 	inlineStack []*ssa.Function
 	pkgShort    string
@@ -329,6 +331,7 @@ func (x *Exec) runInstrs(fr *Frame, st *State, b *ssa.BasicBlock, i int, k kont)
 			}
 			st2, fr2 := st.clone(), fr.clone()
 			st.pc = append(st.pc, c)
+			x.refineTypeAssert(fr, st, ins.Cond)
 			x.runBlock(fr, st, tb, b, k)
 			st2.pc = append(st2.pc, mkNot(c))
 			x.runBlock(fr2, st2, fb, b, k)
@@ -622,11 +625,7 @@ func (x *Exec) initArray(st *State, base Term, et types.Type) {
 			inner = Term{"zero_str_array", arr(sInt, sStr)}
 			x.decls.add("zero_str_array", fmt.Sprintf("(declare-const zero_str_array (Array Int Str))\n(assert (forall ((i Int)) (! (= (select zero_str_array i) %s) :pattern ((select zero_str_array i)))))", z.S))
 		}
-		nt := mkStore(a, base, inner)
-		x.nsym++
-		name := quoteSym(fmt.Sprintf("H:%s!%d", class, x.nsym))
-		st.defs = append(st.defs, fmt.Sprintf("(define-fun %s () %s %s)", name, nt.Sort, nt.S))
-		st.heap[class] = Term{name, nt.Sort}
+		x.setClassStore(st, class, a, base, inner)
 	})
 }
 
@@ -984,11 +983,7 @@ func (x *Exec) convert(fr *Frame, st *State, ins *ssa.Convert) Val {
 			}
 			class := "elem:" + typeStr(sl.Elem())
 			a := x.classTerm(st, class, 2, sInt)
-			nt := mkStore(a, r, inner)
-			x.nsym++
-			name := quoteSym(fmt.Sprintf("H:%s!%d", class, x.nsym))
-			st.defs = append(st.defs, fmt.Sprintf("(define-fun %s () %s %s)", name, nt.Sort, nt.S))
-			st.heap[class] = Term{name, nt.Sort}
+			x.setClassStore(st, class, a, r, inner)
 			ln = x.def(st, "len", ln)
 			return Sl{r, intLit(0), ln, ln, ins.Type()}
 		}
@@ -999,7 +994,7 @@ func (x *Exec) convert(fr *Frame, st *State, ins *ssa.Convert) Val {
 			eb := sl.Elem().Underlying().(*types.Basic)
 			class := "elem:" + typeStr(sl.Elem())
 			a := x.classTerm(st, class, 2, sInt)
-			inner := mkSelect(a, s.Base)
+			inner := x.outerSelect(a, s.Base)
 			fn := "str.frombytes_"
 			if eb.Kind() == types.Int32 {
 				fn = "str.fromrunes_"
@@ -1163,7 +1158,7 @@ func (x *Exec) mapDom(st *State, m Term, mt *types.Map) Term {
 	d, _, _ := x.mapClassesOf(m, mt)
 	ks := x.heapSort(mt.Key())
 	a := x.classTermSort(st, d, arr(sInt, arr(ks, sBool)))
-	return mkSelect(a, m)
+	return x.outerSelect(a, m)
 }
 
 func (x *Exec) heapSort(t types.Type) string {
@@ -1227,7 +1222,7 @@ func (x *Exec) mapValRead(st *State, m Term, mt *types.Map, k Term) Val {
 	ks := x.heapSort(mt.Key())
 	return x.readComposite(st, vc, mt.Elem(), func(class string, sort string) Term {
 		a := x.classTermSort(st, class, arr(sInt, arr(ks, sort)))
-		return mkSelect(mkSelect(a, m), k)
+		return mkSelect(x.outerSelect(a, m), k)
 	})
 }
 
@@ -1326,9 +1321,9 @@ func (x *Exec) mapInit(st *State, m Sc) {
 	ks := x.heapSort(mt.Key())
 	a := x.classTermSort(st, d, arr(sInt, arr(ks, sBool)))
 	empty := Term{fmt.Sprintf("((as const %s) false)", arr(ks, sBool)), arr(ks, sBool)}
-	x.setClass(st, d, mkStore(a, m.T, empty))
+	x.setClassStore(st, d, a, m.T, empty)
 	s := x.classTermSort(st, sz, arr(sInt, sInt))
-	x.setClass(st, sz, mkStore(s, m.T, intLit(0)))
+	x.setClassStore(st, sz, s, m.T, intLit(0))
 }
 
 func (x *Exec) mapUpdate(st *State, m Sc, k, v Val) {
@@ -1337,13 +1332,13 @@ func (x *Exec) mapUpdate(st *State, m Sc, k, v Val) {
 	ks := x.heapSort(mt.Key())
 	kt := k.(Sc).T
 	a := x.classTermSort(st, d, arr(sInt, arr(ks, sBool)))
-	had := x.def(st, "had", mkSelect(mkSelect(a, m.T), kt))
-	x.setClass(st, d, mkStore(a, m.T, mkStore(mkSelect(a, m.T), kt, tTrue)))
+	had := x.def(st, "had", mkSelect(x.outerSelect(a, m.T), kt))
+	x.setClassStore(st, d, a, m.T, mkStore(x.outerSelect(a, m.T), kt, tTrue))
 	s := x.classTermSort(st, sz, arr(sInt, sInt))
-	x.setClass(st, sz, mkStore(s, m.T, app(sInt, "+", mkSelect(s, m.T), mkIte(had, intLit(0), intLit(1)))))
+	x.setClassStore(st, sz, s, m.T, app(sInt, "+", x.outerSelect(s, m.T), mkIte(had, intLit(0), intLit(1))))
 	x.writeComposite(vc, v, func(class string, t Term) {
 		va := x.classTermSort(st, class, arr(sInt, arr(ks, t.Sort)))
-		x.setClass(st, class, mkStore(va, m.T, mkStore(mkSelect(va, m.T), kt, t)))
+		x.setClassStore(st, class, va, m.T, mkStore(x.outerSelect(va, m.T), kt, t))
 	})
 }
 
@@ -1353,17 +1348,17 @@ func (x *Exec) mapDelete(st *State, m Sc, k Val) {
 	ks := x.heapSort(mt.Key())
 	kt := k.(Sc).T
 	a := x.classTermSort(st, d, arr(sInt, arr(ks, sBool)))
-	had := x.def(st, "had", mkSelect(mkSelect(a, m.T), kt))
-	x.setClass(st, d, mkStore(a, m.T, mkStore(mkSelect(a, m.T), kt, tFalse)))
+	had := x.def(st, "had", mkSelect(x.outerSelect(a, m.T), kt))
+	x.setClassStore(st, d, a, m.T, mkStore(x.outerSelect(a, m.T), kt, tFalse))
 	s := x.classTermSort(st, sz, arr(sInt, sInt))
-	x.setClass(st, sz, mkStore(s, m.T, app(sInt, "-", mkSelect(s, m.T), mkIte(had, intLit(1), intLit(0)))))
+	x.setClassStore(st, sz, s, m.T, app(sInt, "-", x.outerSelect(s, m.T), mkIte(had, intLit(1), intLit(0))))
 }
 
 func (x *Exec) mapLen(st *State, m Sc) Term {
 	mt := m.GT.Underlying().(*types.Map)
 	_, _, sz := x.mapClassesOf(m.T, mt)
 	s := x.classTermSort(st, sz, arr(sInt, sInt))
-	r := x.def(st, "mlen", mkSelect(s, m.T))
+	r := x.def(st, "mlen", x.outerSelect(s, m.T))
 	st.assume(app(sBool, "<=", intLit(0), r))
 	st.assume(app(sBool, "<=", r, bigIntLit("281474976710656")))
 	st.assume(mkImplies(mkEq(m.T, intLit(0)), mkEq(r, intLit(0))))
@@ -1621,4 +1616,37 @@ func lineOf(fset *token.FileSet, b *ssa.BasicBlock) string {
 		}
 	}
 	return "?"
+}
+
+// refineTypeAssert: on the branch where a comma-ok type assertion succeeded, its value component is the
+// plain payload (no ite on the ok flag), which keeps later terms small and syntactically comparable.
+func (x *Exec) refineTypeAssert(fr *Frame, st *State, cond ssa.Value) {
+	ex, ok := cond.(*ssa.Extract)
+	if !ok || ex.Index != 1 {
+		return
+	}
+	ta, ok := ex.Tuple.(*ssa.TypeAssert)
+	if !ok || !ta.CommaOk {
+		return
+	}
+	if _, isIface := ta.AssertedType.Underlying().(*types.Interface); isIface {
+		return
+	}
+	switch ta.AssertedType.Underlying().(type) {
+	case *types.Struct, *types.Slice, *types.Array:
+		return
+	}
+	itv, ok := fr.vals[ta.X].(Sc)
+	if !ok {
+		return
+	}
+	plain := x.unbox(itv.T, ta.AssertedType)
+	for _, r := range *ta.Referrers() {
+		if e0, ok := r.(*ssa.Extract); ok && e0.Index == 0 {
+			fr.vals[e0] = plain
+		}
+	}
+	if sc, ok := plain.(Sc); ok {
+		x.assumeValid(st, sc)
+	}
 }
